@@ -151,3 +151,23 @@ Theorem C11_read_back_gap_refuted :
     fragmentify d [firstn 2 ss; skipn 2 ss] = Ok outs /\ concat (map retime_seg outs) <> ss.
 Proof. exact read_back_gap_refuted. Qed.
 Print Assumptions C11_read_back_gap_refuted.
+
+(* ---- combine-segs end to end: each input is read with trex = nil (as the tool does), multiplexed, and
+   read back; the result is what a reader WITH the input's trex sees, for inputs that do not rely on
+   trex defaults (the limitation documented in the tool's source is exactly this hypothesis) ---- *)
+Theorem C11_mux_end_to_end : forall (ids : list N) (xs : list mux_input) (id : N) (x : mux_input),
+  NoDup ids -> In (id, x) (combine ids xs) ->
+  trun_indep_of_trex (mi_frag x) (mi_trun x) = true ->
+  contiguous_list (mux_read true x) = true ->
+  read_track (fo_trafs (combine_inputs ids xs)) id = Some (mux_read true x).
+Proof. exact mux_end_to_end. Qed.
+Print Assumptions C11_mux_end_to_end.
+
+Definition ex_mux_in : mux_input :=
+  mkMuxIn (mkFragIn (Some 10) None (Some 65536) [])
+          (mkTrunIn false true false true [mkFS 0 0 0%Z 33554432 [1]; mkFS 10 0 5%Z 0 [2; 2]]) [1; 2] (mkTrex 99 99 99).
+Example C11_mux_end_to_end_example :
+  trun_indep_of_trex (mi_frag ex_mux_in) (mi_trun ex_mux_in) = true /\
+  contiguous_list (mux_read true ex_mux_in) = true /\
+  map fs_dur (mux_read true ex_mux_in) = [10; 10] /\ map fs_flags (mux_read true ex_mux_in) = [33554432; 65536].
+Proof. vm_compute. repeat split. Qed.
